@@ -76,6 +76,25 @@ Theorem C16_self_describing : forall f bytes rest,
   dec_frame None no_check (bytes ++ rest) = Ok (f_hdr f, sem_frame f, rest).
 Proof. intros. apply dec_frame_agree; auto. Qed.
 
+(* C16 for the frames the encoder model writes (FlacStreamWriter insists on header codes that do not refer to
+   STREAMINFO): each decodes from its own bytes alone to the block encoded, and the scan finds it behind any bytes
+   that do not contain the sync pattern *)
+Theorem C16_encoder_frames_self_describing : forall o L rate bps number chans bytes rest rc,
+  enc_frame_bytes o L rate bps number chans = Some bytes ->
+  block_shape bps chans -> number <= MAX_FRAME_NUMBER ->
+  code_of_rate rate = Some rc -> rc <> 0 -> code_of_bps bps <> 0 ->
+  exists h, dec_frame None no_check (bytes ++ rest) = Ok (h, chans, rest) /\
+            h_rate h = rate /\ h_bps h = bps /\ h_number h = number /\ h_bs h = block_len chans.
+Proof. exact enc_frame_self_describing. Qed.
+Theorem C16_encoder_frames_scanned : forall o L rate bps number chans bytes rest rc g fuel,
+  enc_frame_bytes o L rate bps number chans = Some bytes ->
+  block_shape bps chans -> number <= MAX_FRAME_NUMBER ->
+  code_of_rate rate = Some rc -> rc <> 0 -> code_of_bps bps <> 0 ->
+  syncless g = true -> (length (g ++ bytes ++ rest) < fuel)%nat ->
+  exists h, scan fuel (g ++ bytes ++ rest) = Ok (h, chans, rest) /\
+            h_rate h = rate /\ h_bps h = bps /\ h_number h = number /\ h_bs h = block_len chans.
+Proof. exact enc_frame_scanned. Qed.
+
 (* C17: every well-formed subframe expands to exactly block-size samples *)
 Theorem C17_subframe_expands_to_block_size : forall bs bps sf,
   wf_subframe bs bps sf = true -> length (sem_subframe bs sf) = N.to_nat bs.
@@ -279,6 +298,16 @@ Example ex_encoder_roundtrip :
          h_bps_code := 4; h_bps := 16; h_number := 0 |}, ex_block, [7])
   | None => False end.
 Proof. vm_compute. reflexivity. Qed.
+
+Example ex_encoder_scanned :
+  block_shape 16 ex_block /\ code_of_rate 44100 = Some 9 /\ code_of_bps 16 = 4 /\ syncless [1; 255; 3; 248] = true /\
+  match enc_frame_bytes ex_opts None 44100 16 5 ex_block with
+  | Some b => exists h, stream_read ([1; 255; 3; 248] ++ b ++ [7]) = Ok (h, ex_block, [7]) /\ h_number h = 5
+  | None => False end.
+Proof.
+  split. { unfold block_shape, ex_block. cbn [length]. repeat split; try lia. exists 6. repeat split; try lia. repeat constructor. }
+  split; [reflexivity|]. split; [reflexivity|]. split; [reflexivity|]. vm_compute. eexists. split; reflexivity.
+Qed.
 
 Example ex_encoder_file :
   match enc_blocks ex_opts None 44100 16 0 [ex_block] with
